@@ -32,18 +32,24 @@ def harness(cfg, nprior, nbetween, warm):
     if levy in HAVE_H: kw['return_U'] = True
     if levy in HAVE_A: kw['return_A'] = True
 
+    ml = Fraction(1, 4) if warm else None      # forced tree refinement: bound its depth by a minimal query length
+
     def h(E):
         try:
             bm, top, lo, hi = B.make(E, cfg)
             if warm and not c['halfway'] and c['dt'] is None:
                 top._num_evaluations = -1          # state reached after 99 queries: tree refinement fires inside the history
             for k in range(nprior):
-                a, b = B.sym_query(E, f'p{k}', lo, hi, Fraction(1 + k, 8) + lo.v, Fraction(5 + k, 8) + lo.v, grid)
+                a, b = B.sym_query(E, f'p{k}', lo, hi, Fraction(1 + k, 8) + lo.v, Fraction(5 + k, 8) + lo.v, grid, ml)
                 bm(a, b, **kw)
-            s, t = B.sym_query(E, 'q', lo, hi, lo.v + Fraction(1, 4), lo.v + Fraction(3, 4), grid)
+            s, t = B.sym_query(E, 'q', lo, hi, lo.v + Fraction(1, 4), lo.v + Fraction(3, 4), grid, ml)
             snap1, r1 = snapshot(bm(s, t, **kw))
             for k in range(nbetween):
-                a, b = B.sym_query(E, f'm{k}', lo, hi, Fraction(2 + k, 16) + lo.v, Fraction(9 + k, 16) + lo.v, grid)
+                if warm:
+                    # the query that triggers the tree refinement has concrete times (bounds the refinement depth)
+                    a, b = lo.v + Fraction(1 + 2 * k, 8), lo.v + Fraction(3 + 2 * k, 8)
+                else:
+                    a, b = B.sym_query(E, f'm{k}', lo, hi, Fraction(2 + k, 16) + lo.v, Fraction(9 + k, 16) + lo.v, grid, ml)
                 bm(a, b, **kw)
             snap2, r2 = snapshot(bm(s, t, **kw))
             names = ['W', 'U', 'A'] if len(snap1) == 3 else (['W', 'U'] if len(snap1) == 2 else ['W'])
@@ -94,18 +100,18 @@ def tasks_for(tier):
         (dict(levy='space-time', size=(1,), cache_size=1), 1, 1, False, mp, to),
         (dict(levy='davie', size=(1, 2), cache_size=2), 0, 1, False, mp, to),
         (dict(levy='foster', size=(1, 2), cache_size=45), 1, 1, False, mp, to),
-        (dict(levy='space-time', size=(1,), cache_size=45), 0, 1, True, mp, to),
-        (dict(levy='none', size=(), cache_size=None), 1, 1, False, mp, to),
-        (dict(levy='space-time', size=(1,), cache_size=1, tol=0.1, halfway=True), 0, 1, False, mp, to),
+        (dict(levy='space-time', size=(1,), cache_size=1), 0, 1, True, mp, to),
+        (dict(levy='davie', size=(1, 2), cache_size=None), 1, 1, False, mp, to),
+        (dict(levy='space-time', size=(1,), cache_size=1, tol=0.1, halfway=True, t1=Fraction(1, 2)), 0, 1, False, mp, to),
         (dict(levy='none', size=(1,), cache_size=3, dt=0.25), 0, 1, False, mp, to),
     ]
     if not q:
         T += [
             (dict(levy='space-time', size=(1,), cache_size=1), 1, 2, False, mp, to),
             (dict(levy='davie', size=(1, 2), cache_size=1), 1, 1, True, mp, to),
-            (dict(levy='none', size=(1,), cache_size=0), 0, 2, True, mp, to),
+            (dict(levy='none', size=(1,), cache_size=2), 0, 2, True, mp, to),
             (dict(levy='foster', size=(2, 2), cache_size=2), 0, 2, False, mp, to),
-            (dict(levy='space-time', size=(1,), cache_size=2, tol=0.1, halfway=True), 1, 1, False, mp, to),
+            (dict(levy='space-time', size=(1,), cache_size=2, tol=0.1, halfway=True, t1=Fraction(1, 2)), 1, 1, False, mp, to),
         ]
     return T
 
@@ -186,7 +192,11 @@ def replay(data):
         r1 = bm(s, t, **kw); r1 = r1 if isinstance(r1, tuple) else (r1,)
         keep = [p.clone() if p is not None else None for p in r1]
         for k in range(r['nbetween']):
-            bm(*q(f'm{k}'), **kw)
+            if r['warm']:
+                lo_ = float(Fraction(cfg['t0']))
+                bm(lo_ + (1 + 2 * k) / 8, lo_ + (3 + 2 * k) / 8, **kw)
+            else:
+                bm(*q(f'm{k}'), **kw)
         r2 = bm(s, t, **kw); r2 = r2 if isinstance(r2, tuple) else (r2,)
         for nm, a, b, live in zip('WUA', keep, r2, r1):
             if a is None:
